@@ -210,7 +210,7 @@ impl Axecutor {
     fn instr_mov_al_moffs8(&mut self, i: Instruction) -> Result<(), AxError> {
         debug_assert_eq!(i.code(), Mov_AL_moffs8);
 
-        calculate_rm_r![u8; self; i; |_, s| {
+        calculate_r_rm![u8; self; i; |_, s| {
             s
         }; (set: FLAGS_UNAFFECTED; clear: 0)]
     }
@@ -221,7 +221,7 @@ impl Axecutor {
     fn instr_mov_ax_moffs16(&mut self, i: Instruction) -> Result<(), AxError> {
         debug_assert_eq!(i.code(), Mov_AX_moffs16);
 
-        calculate_rm_r![u16; self; i; |_, s| {
+        calculate_r_rm![u16; self; i; |_, s| {
             s
         }; (set: FLAGS_UNAFFECTED; clear: 0)]
     }
@@ -232,7 +232,7 @@ impl Axecutor {
     fn instr_mov_eax_moffs32(&mut self, i: Instruction) -> Result<(), AxError> {
         debug_assert_eq!(i.code(), Mov_EAX_moffs32);
 
-        calculate_rm_r![u32; self; i; |_, s| {
+        calculate_r_rm![u32; self; i; |_, s| {
             s
         }; (set: FLAGS_UNAFFECTED; clear: 0)]
     }
@@ -243,7 +243,7 @@ impl Axecutor {
     fn instr_mov_rax_moffs64(&mut self, i: Instruction) -> Result<(), AxError> {
         debug_assert_eq!(i.code(), Mov_RAX_moffs64);
 
-        calculate_rm_r![u64; self; i; |_, s| {
+        calculate_r_rm![u64; self; i; |_, s| {
             s
         }; (set: FLAGS_UNAFFECTED; clear: 0)]
     }
@@ -254,7 +254,7 @@ impl Axecutor {
     fn instr_mov_moffs8_al(&mut self, i: Instruction) -> Result<(), AxError> {
         debug_assert_eq!(i.code(), Mov_moffs8_AL);
 
-        calculate_r_rm![u8; self; i; |_, s| {
+        calculate_rm_r![u8; self; i; |_, s| {
             s
         }; (set: FLAGS_UNAFFECTED; clear: 0)]
     }
@@ -265,7 +265,7 @@ impl Axecutor {
     fn instr_mov_moffs16_ax(&mut self, i: Instruction) -> Result<(), AxError> {
         debug_assert_eq!(i.code(), Mov_moffs16_AX);
 
-        calculate_r_rm![u16; self; i; |_, s| {
+        calculate_rm_r![u16; self; i; |_, s| {
             s
         }; (set: FLAGS_UNAFFECTED; clear: 0)]
     }
@@ -276,7 +276,7 @@ impl Axecutor {
     fn instr_mov_moffs32_eax(&mut self, i: Instruction) -> Result<(), AxError> {
         debug_assert_eq!(i.code(), Mov_moffs32_EAX);
 
-        calculate_r_rm![u32; self; i; |_, s| {
+        calculate_rm_r![u32; self; i; |_, s| {
             s
         }; (set: FLAGS_UNAFFECTED; clear: 0)]
     }
@@ -287,7 +287,7 @@ impl Axecutor {
     fn instr_mov_moffs64_rax(&mut self, i: Instruction) -> Result<(), AxError> {
         debug_assert_eq!(i.code(), Mov_moffs64_RAX);
 
-        calculate_r_rm![u64; self; i; |_, s| {
+        calculate_rm_r![u64; self; i; |_, s| {
             s
         }; (set: FLAGS_UNAFFECTED; clear: 0)]
     }
